@@ -25,7 +25,7 @@ RULE = ("(1) inventory: in a fresh interpreter the re module is wrapped BEFORE p
         "time: R1 every input of length <= 48 finishes within 0.25 s; R2 between consecutive lengths La<Lb time may grow at "
         "most like a degree-8 polynomial (with a 2 ms noise floor); the slowest families per pattern / entry point are "
         "followed up to length 384. Non-trivial = the pattern / entry point rejects the input (the only situation where "
-        "backtracking cost shows); distinct = pattern or entry point + family. (4) every text position of 8 base documents is probed with a canary: text that reaches re as part of a PATTERN (unescaped) is confirmed end to end with a nested-quantifier pattern there and near-miss subjects elsewhere. (5) number-shaped text (exponent notation, long digit runs, signs, underscores, non-ASCII digits; 24 families growing one character at a time up to 48 characters) in every converted field - timestamps, disc numbers, sizes, respins, flags, as text and as bare JSON number tokens - under the same R1/R2 oracle: the cost of a conversion is not visible at the re boundary.")
+        "backtracking cost shows); distinct = pattern or entry point + family. (4) every text position of 8 base documents is probed with a canary: text that reaches re as part of a PATTERN (unescaped) is confirmed end to end with a nested-quantifier pattern there and near-miss subjects elsewhere. (5) number-shaped text (exponent notation, long digit runs, signs, underscores, non-ASCII digits; 24 families growing one character at a time up to 48 characters) in every converted field - timestamps, disc numbers, sizes, respins, flags, as text and as bare JSON number tokens - under the same R1/R2 oracle: the cost of a conversion is not visible at the re boundary. (6) documents whose STRUCTURE is pumped (nesting depth up to 32, siblings, records) while every field stays short: a document of at most 20 000 characters loads and dumps within 1 CPU second each (R3), R2 between consecutive sizes.")
 ASSUMPTIONS = ["CPU time (time.process_time) measured in the checking process with a virtual-time interval timer; thresholds leave > 100x margin over the slowest legitimate case",
                "an empirical cost model, not an ambiguity proof of the automata: a blow-up outside the explored families/lengths stays invisible"]
 FLOORS = {"distinct_nontrivial": 1500, "patterns": 300, "entry-points": 600, "number-shaped-fields": 400}
@@ -427,6 +427,105 @@ def number_sinks():
     ]
 
 
+# ---- structured growth -----------------------------------------------------------------------------------------------------
+# A document is an input string too: its STRUCTURE can be pumped (nesting depth, number of siblings, number of records) while
+# every single field stays short.  R3: a generated document of at most 20 000 characters loads, and the loaded object dumps,
+# within 1.0 CPU second each (the unchanged tree needs milliseconds); R2 between consecutive sizes as for strings.
+STRUCTURE_SIZES = {"composeinfo-chain": [2, 4, 6, 8, 10, 12, 14, 16, 20, 24, 32], "treeinfo-chain": [2, 4, 6, 8, 10, 12, 14, 16, 20, 24, 32],
+                   "composeinfo-siblings": [4, 16, 64, 128], "composeinfo-two-levels": [2, 4, 8, 12], "images-one-cell": [4, 16, 64], "rpms-0.3-packages": [4, 16, 64, 128],
+                   "treeinfo-siblings": [4, 16, 64]}
+R3_LIMIT, R3_CHARS = 1.0, 20000
+
+
+def structured_document(kind, n):
+    comp = {"id": "F-22-20160622.n.3", "type": "nightly", "date": "20160622", "respin": 3}
+    if kind.startswith("composeinfo"):
+        variants = {}
+
+        def var(vid, uid, kids):
+            variants[uid] = {"id": vid, "uid": uid, "name": vid, "type": "variant", "arches": ["x86_64"], "paths": {"os_tree": {"x86_64": uid}}}
+            if kids:
+                variants[uid]["variants"] = kids
+        if kind == "composeinfo-chain":
+            uid = "A"
+            for level in range(n):
+                var("A", uid, ["A"] if level < n - 1 else [])
+                uid += "-A"
+        elif kind == "composeinfo-siblings":
+            for i in range(n):
+                var("V%d" % i, "V%d" % i, [])
+        else:
+            for i in range(n):
+                var("V%d" % i, "V%d" % i, ["K%d" % j for j in range(n)])
+                for j in range(n):
+                    var("K%d" % j, "V%d-K%d" % (i, j), [])
+        doc = {"header": {"type": "productmd.composeinfo", "version": "1.2"},
+               "payload": {"compose": comp, "release": {"name": "F", "short": "F", "version": "22", "type": "ga", "internal": False}, "variants": variants}}
+        return "composeinfo", json.dumps(doc)
+    if kind.startswith("treeinfo"):
+        lines = ["[header]", "type = productmd.treeinfo", "version = 1.2", "", "[release]", "name = F", "short = F", "version = 22", "",
+                 "[tree]", "arch = x86_64", "build_timestamp = 1", "platforms = x86_64"]
+        if kind == "treeinfo-chain":
+            lines += ["variants = A", ""]
+            uid = "A"
+            for level in range(n):
+                lines += ["[variant-%s]" % uid, "id = A", "uid = %s" % uid, "name = A", "type = variant", "packages = p", "repository = r"]
+                if level:
+                    lines.append("parent = %s" % uid[:-2])
+                if level < n - 1:
+                    lines.append("addons = %s-A" % uid)
+                lines.append("")
+                uid += "-A"
+        else:
+            lines += ["variants = %s" % ",".join("V%d" % i for i in range(n)), ""]
+            for i in range(n):
+                lines += ["[variant-V%d]" % i, "id = V%d" % i, "uid = V%d" % i, "name = V", "type = variant", "packages = p", "repository = r", ""]
+        return "treeinfo", "\n".join(lines) + "\n"
+    if kind == "images-one-cell":
+        recs = [{"path": "p%d" % i, "mtime": 1, "size": 1, "volume_id": None, "type": "dvd", "format": "iso", "arch": "x86_64", "disc_number": i + 1, "disc_count": n,
+                 "checksums": {"md5": "x"}, "implant_md5": None, "bootable": False, "subvariant": "S"} for i in range(n)]
+        return "images", json.dumps({"header": {"type": "productmd.images", "version": "1.2"}, "payload": {"compose": comp, "images": {"Server": {"x86_64": recs}}}})
+    table = {}
+    for i in range(n):
+        table["p%d-0:1-1.src" % i] = {"p%d-0:1-1.x86_64" % i: {"path": "p", "sigkey": None, "type": "package"}}
+    return "rpms", json.dumps({"header": {"version": "0.3"}, "payload": {"compose": comp, "manifest": {"Server": {"x86_64": table}}}})
+
+
+def structured_case(case):
+    from pbt import c19_docs
+    import productmd.composeinfo
+    import productmd.images
+    import productmd.rpms
+    import productmd.treeinfo
+    classes = {"composeinfo": productmd.composeinfo.ComposeInfo, "images": productmd.images.Images, "rpms": productmd.rpms.Rpms, "treeinfo": productmd.treeinfo.TreeInfo}
+    prev, worst = None, 0.0
+    for n in STRUCTURE_SIZES[case["kind"]]:
+        cls, text = structured_document(case["kind"], n)
+        holder = []
+
+        def load():
+            obj = classes[cls]()
+            obj.loads(text)
+            holder.append(obj)
+        t = measure(load, 4.0)
+        if len(text) <= R3_CHARS:
+            check(t is not None and t <= R3_LIMIT, "small-document-stalls", lambda: "%s with n=%d: a %d-character document took %s CPU seconds to load (limit %.1f s)" % (
+                case["kind"], n, len(text), "more than 4.0" if t is None else "%.2f" % t, R3_LIMIT))
+        if t is None:
+            break
+        check(holder, "structured-document-refused", "harness: %s n=%d was not loaded" % (case["kind"], n))
+        td = measure(holder[-1].dumps, 4.0)
+        if len(text) <= R3_CHARS:
+            check(td is not None and td <= R3_LIMIT, "small-document-stalls", lambda: "%s with n=%d: the object loaded from a %d-character document took %s CPU seconds to dump (limit %.1f s)" % (
+                case["kind"], n, len(text), "more than 4.0" if td is None else "%.2f" % td, R3_LIMIT))
+        spent = t + (td if td is not None else 4.0)
+        if prev is not None:
+            check(not too_fast_growing(prev[0], max(prev[1], 0.01), len(text), spent, 8.0), "super-polynomial-growth", lambda: "%s: %.4f s at %d characters, %.4f s at %d characters" % (
+                case["kind"], prev[1], prev[0], spent, len(text)))
+        prev, worst = (len(text), spent), max(worst, spent)
+    return {"nontrivial": True, "labels": ["structured", case["kind"]], "t": worst}
+
+
 def number_case(case, sinks=None):
     sinks = sinks or number_sinks()
     fn = dict(sinks)[case["entry"]]
@@ -610,6 +709,8 @@ def run(ctx):
                 len(sinks), len(NUMBER_FAMILIES), NUMBER_LENGTHS, "; ".join(n for n, _ in sinks)))
         ctx.sweep("number-shaped-fields", [{"entry": name, "family": list(fam)} for name, _ in sinks for fam in NUMBER_FAMILIES], lambda c: number_case(c, sinks), exhaustive=True)
 
+    ctx.sweep("structured-documents", [{"kind": k} for k in sorted(STRUCTURE_SIZES)], structured_case, exhaustive=True, stop_after=3)
+
     # entry points
     sub = ctx.sub("entry-points")
     t0 = time.time()
@@ -691,5 +792,5 @@ def entry_case(case, eps=None):
     return {"nontrivial": rejected, "labels": ["rejected" if rejected else "accepted"], "t": t}
 
 
-REPLAY = {"number-shaped-fields": number_case, "patterns": pattern_case, "entry-points": entry_case, "input-as-pattern": taint_case}
+REPLAY = {"structured-documents": structured_case, "number-shaped-fields": number_case, "patterns": pattern_case, "entry-points": entry_case, "input-as-pattern": taint_case}
 QUICK_JOBS = 8
